@@ -153,3 +153,10 @@ def _c11_null_match(v):
     m = v["mech"]
     return v["oracle"] == "raised" and m.get("schema") == "structure" and m.get("exc") == "AttributeError" \
         and "NoneType" in str(m.get("msg", ""))
+
+
+@predicate("C04-same-type-marks-order")
+def _c04_mark_order(v):
+    m = v["mech"]
+    return v["oracle"] in ("undo", "single-undo") and m.get("differs_only_in_same_type_mark_order") is True \
+        and m.get("step") in ("RemoveNodeMarkStep", "RemoveMarkStep", "AddMarkStep", "AddNodeMarkStep") and not m.get("failed")
